@@ -1,75 +1,6 @@
-//! Observers shared by the harnesses: a payload type whose construction and destruction are
-//! counted, so that "moved exactly once / dropped exactly once / never dropped twice" become
-//! assertions over counters.
+//! Observers (from `nd::obs`) and the reference models of the runtime-type harnesses.
 
-pub static mut LIVE: i32 = 0;
-pub static mut DROPS: u32 = 0;
-pub static mut MADE: u32 = 0;
-
-const TAG_LIVE: u32 = 0x600D_600D;
-const TAG_DEAD: u32 = 0xDEAD_DEAD;
-
-pub fn reset() {
-    unsafe {
-        LIVE = 0;
-        DROPS = 0;
-        MADE = 0;
-    }
-}
-pub fn live() -> i32 {
-    unsafe { LIVE }
-}
-pub fn drops() -> u32 {
-    unsafe { DROPS }
-}
-pub fn made() -> u32 {
-    unsafe { MADE }
-}
-
-/// Drop-counted payload. `val` is data the harness compares; `tag` detects a second drop or a
-/// drop of memory that never held a `Pay`.
-#[derive(Debug)]
-pub struct Pay {
-    pub val: u32,
-    tag: u32,
-}
-
-impl Pay {
-    pub fn new(val: u32) -> Self {
-        unsafe {
-            LIVE += 1;
-            MADE += 1;
-        }
-        Pay { val, tag: TAG_LIVE }
-    }
-    pub fn is_live(&self) -> bool {
-        self.tag == TAG_LIVE
-    }
-}
-
-impl Clone for Pay {
-    fn clone(&self) -> Self {
-        assert!(self.tag == TAG_LIVE, "clone of a dead Pay");
-        Pay::new(self.val)
-    }
-}
-
-impl PartialEq for Pay {
-    fn eq(&self, o: &Self) -> bool {
-        self.val == o.val
-    }
-}
-
-impl Drop for Pay {
-    fn drop(&mut self) {
-        assert!(self.tag == TAG_LIVE, "Pay dropped twice (or a never-constructed Pay dropped)");
-        self.tag = TAG_DEAD;
-        unsafe {
-            LIVE -= 1;
-            DROPS += 1;
-        }
-    }
-}
+pub use nd::obs::*;
 
 /// Independent prefix-to-first-NUL scan (reference model for C14).
 pub fn nul_prefix_len(b: &[u8]) -> usize {
